@@ -144,6 +144,7 @@ def rule_cost_sem(ctx: RuleContext, p: Program, rid: str) -> None:
             for k, v in list(me.f.items()):
                 me.f.setdefault(k.lstrip('_'), v)
                 me.f.setdefault('raw_' + k.lstrip('_'), v)
+            me.f['first_token'], me.f['last_token'] = left, right          # the extent of a cost: its braces (the generated edge properties)
             try:
                 res = Interp(doc, mod).call_function(fn, [me], {})
             except possem.Raised as ex:
